@@ -63,6 +63,7 @@ Definition bools_derived (u : universe_t) (dt : list (string * list nstmt)) : bo
                                        | NSet [o] v => if String.eqb o (fst fld)
                                                        then match v with
                                                             | VCopy [p] | VValid [p] => String.eqb p o
+                                                            | VNoPos _ => true
                                                             | VConst _ => true
                                                             | _ => false
                                                             end
